@@ -88,6 +88,10 @@ def plan(tier, seed):
         specs.append({'kind': 'enum4', 'slice': sl, 'nslices': nsl, 'part': part, 'parts': parts})
     for r in range(rshards):
         specs.append({'kind': 'random', 'n': nrand // rshards, 'rshard': r})
+    # wildcard pairs / triples over the full constraint vocabulary (lists and notNamespace included)
+    wparts = 8
+    for part in range(wparts):
+        specs.append({'kind': 'enumw', 'part': part, 'parts': wparts, 'triples': tier != 'quick'})
     return specs
 
 
@@ -294,6 +298,22 @@ def run_shard(spec, res):
                 continue
             res.count(kind + ':models')
             judge(res, node, {}, kind)
+    elif kind == 'enumw':
+        cons = M.WILDCARD_CONS + M.WILDCARD_CONS_MORE
+        occs = ((1, 1), (0, 1), (1, None))
+        leaves = [('w', c, o[0], o[1]) for c in cons for o in occs]
+        k = 0
+        import itertools
+        shapes = itertools.chain(((l1, l2) for l1 in leaves for l2 in leaves),
+                                 ((l1, ('e', 'a', 1, 1), l2) for l1 in leaves for l2 in leaves) if spec['triples'] else ())
+        for kids in shapes:
+            for g in ('s', 'c'):
+                for go in ((1, 1), (1, 2)):
+                    k += 1
+                    if k % spec['parts'] != spec['part']:
+                        continue
+                    res.count('enumw:models')
+                    judge(res, (g, tuple(kids), go[0], go[1]), {}, 'enumw')
     else:
         rng = env.rng_for(PROPERTY, spec['tier'], spec['seed'], spec['rshard'])
         for i in range(spec['n']):
